@@ -24,7 +24,7 @@ def J(harness, label, cap_s=None, **params):
 def jobs_c07(tier, seed):
     jobs = []
     if tier == 'quick':
-        pairs, nmax = [POOL[0], POOL[1], POOL[7]], 7
+        pairs, nmax = [POOL[0], POOL[1], POOL[7]], 8
         extra = POOL[2 + seed % 10]
         if extra not in pairs:
             pairs.append(extra)
@@ -45,7 +45,7 @@ def jobs_c07(tier, seed):
 def jobs_c08(tier, seed):
     jobs = []
     if tier == 'quick':
-        pairs, nmax = [POOL[0], POOL[5], POOL[4], POOL[6]], 7
+        pairs, nmax = [POOL[0], POOL[5], POOL[4], POOL[6]], 8
         tpl = [POOL[1], POOL[2]]
         holes = [(a, b, c) for a in range(0, 3) for b in range(1, 3) for c in range(0, 2)]
     else:
@@ -85,7 +85,7 @@ def jobs_c09(tier, seed):
 
 
 def jobs_c10(tier, seed):
-    lens = range(1, 5) if tier == 'quick' else range(1, 7)
+    lens = range(1, 6) if tier == 'quick' else range(1, 7)
     return [J('c10_pairing', f'slot sequences of length {L}', len=L) for L in lens]
 
 
